@@ -28,6 +28,10 @@ structure Call where
 /-- the SDK assumption: a call that returns nil had one of its requests stored -/
 def Call.Honest (c : Call) : Prop := c.ok = true → Req.stored ∈ c.reqs
 
+/-- the converse SDK assumption: a call fails only if the caller's context was cancelled or one of its requests was
+    not stored -/
+def Call.Faithful (cancelled : Bool) (c : Call) : Prop := c.ok = false → cancelled = true ∨ ∃ r ∈ c.reqs, r ≠ Req.stored
+
 /-- `Upload`'s return value: `select { case err = <-hedgeErr: … default: … }` after the main call returned.
     `hedge = none`: the hedge was not started or its result was not yet there. -/
 def uploadOk (main : Call) (hedge : Option Call) : Bool :=
